@@ -29,6 +29,7 @@ import (
 	"github.com/cloudflare/pint/verifharness/corpus"
 	"github.com/cloudflare/pint/verifharness/gen"
 	"github.com/cloudflare/pint/verifharness/lint"
+	"github.com/cloudflare/pint/verifharness/pq"
 	"github.com/cloudflare/pint/verifharness/vstat"
 )
 
@@ -217,6 +218,29 @@ func genCase(t *rapid.T) Case {
 		o.CRLF, o.NoFinalNewline, o.BlankInScalar, o.DQEscapes, o.IndentInd, o.ShallowCont, o.HeaderComment = true, true, true, true, true, true, true
 		s := gen.NewStyler(t, o)
 		d := gen.GenDoc(t, 2, 3)
+		// unusual (valid) PromQL and templates so that the inputs reach deep into the checks
+		for gi := range d.Groups {
+			for ri := range d.Groups[gi].Rules {
+				r := &d.Groups[gi].Rules[ri]
+				switch rapid.IntRange(0, 5).Draw(t, fmt.Sprintf("exotic%d.%d", gi, ri)) {
+				case 0:
+					r.Expr = rapid.SampledFrom(gen.ExoticExprs).Draw(t, "exoticExpr")
+					p.Ops = append(p.Ops, "exotic-expr")
+				case 1:
+					g := pq.Full(pq.DefaultUniverse(), rapid.IntRange(1, 3).Draw(t, "pqDepth"))
+					r.Expr = g.Top(t)
+					p.Ops = append(p.Ops, "pq-expr")
+				case 2:
+					if r.Alert {
+						r.Anns = append(r.Anns, [2]string{"exotic", rapid.SampledFrom(gen.ExoticTemplates).Draw(t, "exoticTmpl")})
+						if rapid.Bool().Draw(t, "exoticLabel") {
+							r.Labels = append(r.Labels, [2]string{"exotic", rapid.SampledFrom(gen.ExoticTemplates).Draw(t, "exoticTmplL")})
+						}
+						p.Ops = append(p.Ops, "exotic-template")
+					}
+				}
+			}
+		}
 		groups := &gen.Node{Kind: gen.SeqKind}
 		for _, g := range d.Groups {
 			groups.Items = append(groups.Items, s.Group(g))
@@ -283,7 +307,9 @@ func TestPropNeverCrashes(t *testing.T) {
 	known := vstat.KnownClasses(prop)
 	rapid.Check(t, func(rt *rapid.T) {
 		c := genCase(rt)
+		rec.Begin(c)
 		st, err := check(c)
+		rec.Done()
 		if errors.Is(err, errHang) {
 			// confirm by re-running alone; only a reproducible hang is a violation
 			if _, err2 := check(c); !errors.Is(err2, errHang) {
